@@ -83,7 +83,10 @@ def run_e2e(job):
     lon, lat = job["lon"], job["lat"]
     jmax, imax = lon.shape
     with lab.scratch() as d:
-        lab.make_grid_forcing(d / "f.nc", [0, 6400], imax=imax, jmax=jmax, N=2, lon=lon, lat=lat, dx=job["dx"],
+        mask = np.ones((jmax, imax))
+        for (lj, li) in job.get("land", []):
+            mask[lj, li] = 0
+        lab.make_grid_forcing(d / "f.nc", [0, 6400], imax=imax, jmax=jmax, N=2, lon=lon, lat=lat, dx=job["dx"], mask=mask,
                               u=lambda t, k, j, i: 0.25 * job["dx"] / 64 + 0 * k, v=lambda t, k, j, i: -0.125 * job["dx"] / 64 + 0 * k)
         rows = [dict(release_time=0, lon=float(lo), lat=float(la), Z=1.0) for lo, la in job["targets"]]
         lab.write_release(d / "release.rls", rows)
@@ -235,6 +238,15 @@ def run(ctx: Ctx):
             tg.append((float(sample2D(lon, np.array(x), np.array(y))), float(sample2D(lat, np.array(x), np.array(y))), x, y))
         ejobs.append(dict(lon=lon, lat=lat, dx=dx, subgrid=sub, layout=["sparse", "dense"][k % 2], targets=[(t[0], t[1]) for t in tg], truth=[(t[2], t[3]) for t in tg],
                           numrec=[0, 0, 2, 1][k % 4]))
+    # land cells next to the particles: lon/lat are coordinates of the grid, land or sea — the particle's lon/lat is the
+    # bilinear interpolation of all four corner nodes also in a cell with a land corner
+    lon_c, lat_c = polar_grid(40, 30, 4000.0, xp=60.0, yp=900.0, ylon=30.0)
+    land = [(12, 14), (12, 15), (20, 25)]
+    pts = [(13.4, 11.6), (15.6, 12.45), (14.45, 12.55), (24.4, 19.6), (25.55, 20.45), (8.3, 6.2)]   # sea cells around the land cells
+    tg = [(float(sample2D(lon_c, np.array(x), np.array(y))), float(sample2D(lat_c, np.array(x), np.array(y))), x, y) for x, y in pts]
+    for lay in ("sparse", "dense"):
+        ejobs.append(dict(lon=lon_c, lat=lat_c, dx=4000.0, subgrid=None, layout=lay, targets=[(t[0], t[1]) for t in tg],
+                          truth=[(t[2], t[3]) for t in tg], numrec=0, land=land))
     # a grid whose longitudes run continuously past 180 degrees
     lon_d, lat_d = polar_grid(40, 30, 10000.0, xp=20.0, yp=300.0, ylon=181.0)
     tg = []
